@@ -284,10 +284,15 @@ func (w *World) newFactEval(next func(ssa.Value) (bool, bool), facts ...atom) *f
 
 func (fe *factEval) eval(v ssa.Value) (bool, bool) {
 	// the condition as written, and with one-expression helpers replaced by what they return
-	for _, plain := range []bool{true, false} {
-		fe.w.noHelperAtoms = plain
+	for variant := 0; variant < 3; variant++ {
+		// 0: as written; 1: one-expression boolean helpers replaced by their body;
+		// 2: additionally, one-expression helpers inside the operands expanded
+		fe.w.noHelperAtoms = variant == 0
+		savedInl := fe.w.inlineHelpers
+		fe.w.inlineHelpers = variant == 2
 		a, ok := fe.w.atomOf(v)
 		fe.w.noHelperAtoms = false
+		fe.w.inlineHelpers = savedInl
 		if !ok {
 			continue
 		}
